@@ -1307,10 +1307,9 @@ class DiameterMessage:
         #: DiameterMessage attribute name in order to not overwritting the 
         #: previous one. 
         if avp_key in self.__dict__:
-            index = 0
-            for key in self.__dict__.keys():
-                if avp_key in key:
-                    index += 1
+            index = 1
+            while f"{avp_key}__{index}" in self.__dict__:
+                index += 1
             avp_key = f"{avp_key}__{index}"
 
         #: Updates DiameterMessage attributes.
